@@ -405,6 +405,12 @@ func runCase(id int, d Defaults, c *Case) {
 						flags = "i"
 					}
 				}
+				// ... and a per-row ratio that is +Inf (e.g. -Inf / -200)
+				if a, ok := tab.Cells[benchtab.TableKey{Row: row, Col: col}]; ok && ci > 0 {
+					if b, ok := tab.Cells[benchtab.TableKey{Row: row, Col: baseCol}]; ok && b.Summary.Center != 0 && math.IsInf(a.Summary.Center/b.Summary.Center, 1) {
+						flags = "i"
+					}
+				}
 			}
 			if flags != "" {
 				gmParts = append(gmParts, fmt.Sprintf("%d.%d=%s", tid, s.C.id(col, s.CF), flags))
